@@ -186,7 +186,7 @@ pub fn serialise_cfg(c: &cfg::Cfg, hist: &[HEv]) -> (String, Ser) {
 }
 
 /// layout digest, extended by the chords-v2 state when chords v2 is configured
-fn full_digest<'a, const C: usize, const R: usize, T: 'a + Copy + std::fmt::Debug>(
+pub fn full_digest<'a, const C: usize, const R: usize, T: 'a + Copy + std::fmt::Debug>(
     layout: &kanata_keyberon::layout::Layout<'a, C, R, T>,
 ) -> String {
     match layout.chords_v2.as_ref() {
